@@ -417,11 +417,80 @@ func runC11(e *Engine, r *Report, tier string) {
 		}
 		r.Check(okArg, "R4", ck, e.InstrPos(at), what+": Stake = validator.TokensFromSharesTruncated(<delegation shares | transferred shares>)", what+": Stake is computed from something that is not the delegation's shares (for an existing delegation the transferred amount is only part of them: its rewards would accrue on the moved shares alone)")
 	}
+	// whose rewards were withdrawn where: the delegator of each WithdrawDelegatorReward message
+	paramRoot := func(v ssa.Value) *ssa.Parameter {
+		var out *ssa.Parameter
+		e.Slice(v, SliceOpts{MaxDepth: 8}, func(x ssa.Value) Verdict {
+			if p, ok := x.(*ssa.Parameter); ok && strings.HasSuffix(p.Type().String(), "common.Address") {
+				out = p
+				return Accept
+			}
+			return Continue
+		})
+		return out
+	}
+	type wd struct {
+		call  ssa.CallInstruction
+		party *ssa.Parameter
+	}
+	var wds []wd
+	allCalls(fn, func(c ssa.CallInstruction) {
+		if callName(c) != "WithdrawDelegatorReward" && callName(c) != "WithdrawDelegationRewards" {
+			return
+		}
+		for _, a := range c.Common().Args {
+			if al, ok := a.(*ssa.Alloc); ok {
+				for _, ref := range *al.Referrers() {
+					if fa, ok := ref.(*ssa.FieldAddr); ok {
+						if n, _, _ := fieldName(fa); n == "DelegatorAddress" {
+							for _, r2 := range *fa.Referrers() {
+								if st, ok := r2.(*ssa.Store); ok {
+									if p := paramRoot(st.Val); p != nil {
+										wds = append(wds, wd{c, p})
+									}
+								}
+							}
+						}
+					}
+				}
+			} else if p := paramRoot(a); p != nil && isAddrLike(a.Type()) {
+				wds = append(wds, wd{c, p})
+			}
+		}
+	})
+	nUpd := 0
 	allInstrs(fn, func(i ssa.Instruction) {
 		if st, ok := i.(*ssa.Store); ok {
 			if fa, ok := st.Addr.(*ssa.FieldAddr); ok {
 				if n, stt, _ := fieldName(fa); n == "Stake" && strings.HasSuffix(namedTypeName(stt), "DelegatorStartingInfo") {
 					checkStake(st.Val, i, "update")
+					// an existing starting info keeps its old period: it may be given a new stake only after that party's rewards
+					// were withdrawn (which re-bases it to the current period) — on every path, also when the payout rounds to 0
+					nUpd++
+					var party *ssa.Parameter
+					e.Slice(fa.X, SliceOpts{MaxDepth: 8}, func(x ssa.Value) Verdict {
+						if c, ok := x.(*ssa.Call); ok && callName(c) == "GetDelegatorStartingInfo" {
+							for _, a := range c.Call.Args {
+								if p := paramRoot(a); p != nil {
+									party = p
+								}
+							}
+							return Accept
+						}
+						return Continue
+					})
+					ck := fmt.Sprintf("%s rebase#%d", key, nUpd)
+					if party == nil {
+						r.Undecided("R4", ck, e.InstrPos(i), "the party whose starting info is updated could not be determined")
+						return
+					}
+					okW := false
+					for _, w := range wds {
+						if w.party == party && DominatesF(w.call, i) {
+							okW = true
+						}
+					}
+					r.Check(okW, "R4", ck, e.InstrPos(i), "the stake of "+party.Name()+"'s existing starting info is replaced only after "+party.Name()+"'s rewards were withdrawn, on every path", "the stake of "+party.Name()+"'s existing starting info is replaced on a path on which "+party.Name()+"'s rewards were not withdrawn (the withdrawal is conditional): the record keeps its old period, so the enlarged stake earns rewards for periods before the transfer — paid out of other delegators' rewards")
 				}
 			}
 		}
